@@ -253,22 +253,24 @@ def run_case(args):
                                     rec['why'] = ('exact equality has a non-reproducing counterexample (float constant); '
                                                   'holds for every input up to relative %g' % REL_SLACK)
                 recs.append(rec)
-        # counterexamples left unreplayed because of the replay cap only ride on a reproduced violation of the same
-        # case; when none of the replayed ones reproduced they must not be dropped silently
-        if unreplayed and not any(r_['verdict'] == 'violation' for r_ in recs):
-            for rec_, cl_ in unreplayed:
-                rec_['verdict'] = 'unreproduced'
-                rec_['why'] = 'counterexample not replayed (cap) and no counterexample of this case reproduced'
-                if cl_.kind == 'eq':
-                    rtext, _ = engine.claim_query(cl_, rel=REL_SLACK)
-                    rr, _, rs, _ = smt.solve(rtext, min(case.timeout, 60), want_model=False)
-                    rec_['relative_slack_query'] = rr
-                    if rr == 'unsat':
-                        rec_['verdict'] = 'unsat'
-                        rec_['solver'] = 'z3'
-                        rec_['decided_up_to_relative'] = REL_SLACK
-                        rec_['why'] = ('exact equality has a non-reproducing counterexample (float constant); '
-                                       'holds for every input up to relative %g' % REL_SLACK)
+            # counterexamples left unreplayed because of the replay cap only ride on a reproduced violation of the same
+            # case; when none of the replayed ones reproduced they must not be dropped silently. Done per path: the
+            # claims' polynomials are only valid until the next path re-creates the variables.
+            if unreplayed and not any(r_['verdict'] == 'violation' for r_ in recs):
+                for rec_, cl_ in unreplayed:
+                    rec_['verdict'] = 'unreproduced'
+                    rec_['why'] = 'counterexample not replayed (cap) and no counterexample of this case reproduced'
+                    if cl_.kind == 'eq':
+                        rtext, _ = engine.claim_query(cl_, rel=REL_SLACK)
+                        rr, _, rs, _ = smt.solve(rtext, min(case.timeout, 60), want_model=False)
+                        rec_['relative_slack_query'] = rr
+                        if rr == 'unsat':
+                            rec_['verdict'] = 'unsat'
+                            rec_['solver'] = 'z3'
+                            rec_['decided_up_to_relative'] = REL_SLACK
+                            rec_['why'] = ('exact equality has a non-reproducing counterexample (float constant); '
+                                           'holds for every input up to relative %g' % REL_SLACK)
+            unreplayed = []
     except CaseTimeout:
         recs.append(dict(case=case.name, label='<case>', verdict='inconclusive',
                          why='case wall-clock budget (%ds) exceeded during symbolic execution / solving' % budget))
